@@ -72,6 +72,19 @@ PROPS = {
                          "tokio RwLock: a write lock is granted only while no read guard is held (assumed in stepL)"],
         "assumptions": ["the concurrent phase samples schedules; the all-schedules statement is the theorem decided_by_one_version about the lock model"],
     },
+    "C17": {
+        "props_module": "Redproxy.Props.C17",
+        "mode": "c17",
+        "rule": "the real LoadBalanceConnector (connectors::from_value + init + verify) with 1-7 recording members: round robin sequential (5 lengths "
+                "per n, every window of j*n selections checked), round robin from 8 concurrent tasks on the multi-thread runtime (exact equal counts), "
+                "hash-by over 7 key expressions x 4 member counts x ~45 requests incl. pairs that render to the same key from different "
+                "representations (domain literal vs socket address), random (200n draws, members only, all seen); non-trivial = every line; "
+                "distinct = distinct lines",
+        "nontrivial": lambda c, i: True,
+        "trusted_base": ["model Redproxy/Model/Lb.lean tied to loadbalance.rs by correspondence; DefaultHasher and thread_rng are parameters (the hash of "
+                         "each key value is sampled by the harness with the same std hasher and passed to the model)"],
+        "assumptions": ["the frequency clause of `random` is statistical: sampled, not proved; the counter wrap at 2^64 selections is stated (rr_wrap) and not exercised"],
+    },
     "C08": {
         "props_module": "Redproxy.Props.C08",
         "mode": "c08",
